@@ -9,6 +9,7 @@ import WowVerif.Model.Frame
 import WowVerif.Model.Geometry
 import WowVerif.Model.SemIO
 import WowVerif.Model.SemSize
+import WowVerif.Model.UpdateMask
 import Std.Data.HashMap
 namespace WowVerif.Driver
 
@@ -489,6 +490,29 @@ def semHandle (st : DState) (ws : List String) : Option String :=
   | ["keys"] => some s!"{st.corpus.size}"
   | _ => none
 
+/-! ## update mask -/
+open UpdateMask in
+def parseUmOp (s : String) : Option Op :=
+  let body := (s.drop 1).toString
+  match (s.take 1).toString, body.splitOn ":" with
+  | "s", [b, v] => do pure (.set (← b.toNat?) (← v.toNat?))
+  | "g", [b, lo, hi] => do pure (.guid (← b.toNat?) (← lo.toNat?) (← hi.toNat?))
+  | "r", _ => some .dirtyReset
+  | "m", _ => some .markFullyDirty
+  | _, _ => none
+
+open UpdateMask in
+def umHandle (ws : List String) : Option String :=
+  match ws with
+  | ["umask", ty, ops] =>
+    match ty.toNat?, (ops.splitOn ",").mapM parseUmOp with
+    | some ty, some ops =>
+      let s := ops.foldl step (new ty)
+      let gets := (s.values.map fun (k, v) => s!"{k}={v}")
+      some s!"ok {hexOf (write s)} size={size s} blocks={s.nblocks} values={" ".intercalate gets}"
+    | _, _ => some "bad-op"
+  | _ => none
+
 def handle (ws : List String) : String :=
   match ws with
   | ["dt", n] => match n.toNat? with
@@ -531,6 +555,8 @@ def handle (ws : List String) : String :=
       | _, _, _, _, _ => "bad-op"
   | _ => match geoHandle ws with
     | some r => r
-    | none => "bad-op"
+    | none => match umHandle ws with
+      | some r => r
+      | none => "bad-op"
 
 end WowVerif.Driver
